@@ -131,7 +131,9 @@ enum Op {
     Exit,
 }
 
-const SIGS: [&str; 6] = ["USR1", "USR2", "TERM", "INT", "HUP", "TSTP"];
+const SIGS: [&str; 7] = ["USR1", "USR2", "TERM", "INT", "HUP", "TSTP", "CHLD"];
+/// index of SIGCHLD in SIGS (never raised by the sequences, only observed)
+const CHLD: usize = 6;
 
 /// Who gets the signal (never kill(-1): the check runs as root).
 #[derive(Clone, Copy, Debug, PartialEq, Eq)]
@@ -679,7 +681,7 @@ trait SysOps:
     fn harness_chmod(&self, path: &str, mode: u32) -> Result<(), Errno>;
     /// the numbers of SIGS on this system
     fn sig(i: usize) -> yash_env::signal::Number {
-        [Self::SIGUSR1, Self::SIGUSR2, Self::SIGTERM, Self::SIGINT, Self::SIGHUP, Self::SIGTSTP][i]
+        [Self::SIGUSR1, Self::SIGUSR2, Self::SIGTERM, Self::SIGINT, Self::SIGHUP, Self::SIGTSTP, Self::SIGCHLD][i]
     }
 }
 
@@ -1173,6 +1175,8 @@ fn dir_inode() -> Rc<RefCell<Inode>> {
 /// symbolic link to the rest of the content (script streams only: the kernel
 /// model has no symbolic links).
 const LINK: &[u8] = b"\0LINK:";
+/// ... and an entry whose content is this marker is a named FIFO.
+const FIFO: &[u8] = b"\0FIFO";
 
 /// `name_NNN` (three octal digits): the entry is created with these permission
 /// bits (permission scripts; such a tree is run by an unprivileged real shell
@@ -1195,6 +1199,20 @@ fn populate_virtual(state: &Rc<RefCell<SystemState>>, root: &str, tree: &InitTre
                     d.borrow_mut().permissions = Mode::from_bits_retain(m as _);
                 }
                 st.file_system.save(&path, d).unwrap();
+            }
+            Some(b) if b.as_slice() == FIFO => {
+                let inode = Inode {
+                    body: FileBody::Fifo {
+                        content: Default::default(),
+                        readers: 0,
+                        writers: 0,
+                        pending_open_wakers: yash_env::waker::WakerSet::new(),
+                        pending_read_wakers: yash_env::waker::WakerSet::new(),
+                        pending_write_wakers: yash_env::waker::WakerSet::new(),
+                    },
+                    permissions: Mode::from_bits_retain(0o644),
+                };
+                st.file_system.save(&path, Rc::new(RefCell::new(inode))).unwrap();
             }
             Some(b) if b.starts_with(LINK) => {
                 let target = String::from_utf8_lossy(&b[LINK.len()..]).into_owned();
@@ -1325,6 +1343,13 @@ fn populate_real_plain(root: &str, tree: &InitTree) {
             None => {
                 std::fs::create_dir(&path).unwrap();
                 std::fs::set_permissions(&path, std::fs::Permissions::from_mode(0o755)).unwrap();
+            }
+            Some(b) if b.as_slice() == FIFO => {
+                let c = cstr(&path);
+                if unsafe { libc::mkfifo(c.as_ptr(), 0o644) } != 0 {
+                    harness_error(&format!("mkfifo {path}"));
+                }
+                let _ = std::fs::set_permissions(&path, std::fs::Permissions::from_mode(0o644));
             }
             Some(b) if b.starts_with(LINK) => {
                 std::os::unix::fs::symlink(String::from_utf8_lossy(&b[LINK.len()..]).as_ref(), &path).unwrap();
@@ -1559,7 +1584,7 @@ enum OfdKind {
 struct ProcT {
     fds: BTreeMap<i32, usize>,
     cwd: Vec<String>,
-    disp: [Disp; 6],
+    disp: [Disp; 7],
     mask: BTreeSet<usize>,
     pend: BTreeSet<usize>,
     caught: BTreeSet<usize>,
@@ -1613,7 +1638,7 @@ impl Tracker {
         Tracker { hit: vec![], dead: false, next_pg: 1, dirs, files, ofds, pipes: vec![], procs: vec![ProcT {
                 fds,
                 cwd: vec![],
-                disp: [Disp::Default; 6],
+                disp: [Disp::Default; 7],
                 mask: BTreeSet::new(),
                 pend: BTreeSet::new(),
                 caught: BTreeSet::new(),
@@ -1673,7 +1698,15 @@ impl Tracker {
                 }
                 SigEffect::Nothing
             }
-            (Disp::Default, false) => if SIGS[sig] == "TSTP" { SigEffect::Stop } else { SigEffect::Fatal },
+            (Disp::Default, false) => {
+                if sig == CHLD {
+                    SigEffect::Nothing
+                } else if SIGS[sig] == "TSTP" {
+                    SigEffect::Stop
+                } else {
+                    SigEffect::Fatal
+                }
+            }
         }
     }
     fn live(&self, want: OfdKind) -> bool {
@@ -1886,6 +1919,32 @@ fn gen_kill(r: &mut Rng, t: &mut Tracker, ops: &mut Vec<Op>, depth: usize) -> bo
             ops.push(Op::Sigaction(sig, d));
             return true;
         }
+        4 if depth > 0 && !t.dead => {
+            // death at unblock time: block a signal, have it pending with the default
+            // action, (sometimes) move to a process group of its own, unblock
+            let sig = r.below(5);
+            if t.cur().pend.iter().any(|s| *s != sig && t.cur().disp[*s] == Disp::Default && *s != CHLD) {
+                return false;
+            }
+            let p = t.cur_mut();
+            p.mask.insert(sig);
+            ops.push(Op::Sigmask(0, vec![sig]));
+            p.disp[sig] = Disp::Default;
+            ops.push(Op::Sigaction(sig, Disp::Default));
+            p.pend.insert(sig);
+            ops.push(Op::Kill(Target::Own, sig));
+            if r.chance(1, 2) {
+                let id = t.next_pg;
+                t.next_pg += 1;
+                let p = t.cur_mut();
+                p.pg = id;
+                p.leader = true;
+                ops.push(Op::Setpgid0);
+            }
+            ops.push(Op::Sigmask(1, vec![sig]));
+            t.dead = true;
+            return true;
+        }
         3 if depth > 0 => {
             // the child takes the default action again
             let sig = r.below(6);
@@ -1974,10 +2033,16 @@ fn gen_op_w(r: &mut Rng, t: &mut Tracker, x: &Excl, ops: &mut Vec<Op>, depth: us
             108..=121 => {
                 // signals (never one whose default action would be taken)
                 let sig = r.below(6);
+                // SIGCHLD takes part in sigaction (catch / default) and in the mask only
+                let sig_or_chld = if r.chance(1, 5) { CHLD } else { sig };
                 match r.below(7) {
                     0 | 1 => {
                         let mut d = *r.pick(&[Disp::Catch, Disp::Catch, Disp::Ignore, Disp::Default]);
-                        let mut sig = sig;
+                        let mut sig = sig_or_chld;
+                        if sig == CHLD && d == Disp::Ignore {
+                            // (ignoring SIGCHLD changes what wait() does)
+                            d = Disp::Catch;
+                        }
                         if !x.ignore_keeps_pending && r.chance(1, 2) {
                             // the class: "ignore" for a signal that is pending
                             if let Some(s) = t.cur().pend.iter().next().copied() {
@@ -2025,7 +2090,7 @@ fn gen_op_w(r: &mut Rng, t: &mut Tracker, x: &Excl, ops: &mut Vec<Op>, depth: us
                     _ => {
                         let how = r.below(3) as u8;
                         let n = r.below(3);
-                        let mut sigs: Vec<usize> = (0..n).map(|_| r.below(6)).collect();
+                        let mut sigs: Vec<usize> = (0..n).map(|_| r.below(7)).collect();
                         sigs.dedup();
                         let p = t.cur_mut();
                         let mut new = p.mask.clone();
@@ -2039,7 +2104,16 @@ fn gen_op_w(r: &mut Rng, t: &mut Tracker, x: &Excl, ops: &mut Vec<Op>, depth: us
                             _ => new = sigs.iter().copied().collect(),
                         }
                         let unblocked: Vec<usize> = p.pend.iter().copied().filter(|s| !new.contains(s)).collect();
-                        if unblocked.iter().any(|s| p.disp[*s] == Disp::Default) {
+                        let fatal: Vec<usize> =
+                            unblocked.iter().copied().filter(|s| p.disp[*s] == Disp::Default && *s != CHLD).collect();
+                        if !fatal.is_empty() {
+                            // a pending signal with the default action becomes deliverable:
+                            // exactly one, fatal, in a forked child: the child dies in this call
+                            if fatal.len() == 1 && SIGS[fatal[0]] != "TSTP" && depth > 0 {
+                                ops.push(Op::Sigmask(how, sigs));
+                                t.dead = true;
+                                return;
+                            }
                             continue;
                         }
                         for s in unblocked {
@@ -2373,6 +2447,13 @@ fn gen_op_w(r: &mut Rng, t: &mut Tracker, x: &Excl, ops: &mut Vec<Op>, depth: us
                 t.dead = false;
                 t.procs.pop();
                 ops.push(Op::Exit);
+                // the parent is told
+                let parent = t.procs.len() - 1;
+                let _ = t.generate(parent, CHLD, false);
+                if t.cur().disp[CHLD] == Disp::Catch && r.chance(2, 3) {
+                    t.cur_mut().caught.clear();
+                    ops.push(Op::Caught);
+                }
                 return;
             }
         }
@@ -2613,6 +2694,10 @@ fn gen_sys_case(seed: u64, idx: usize, thorough: bool) -> SysCase {
     let umask = *r.pick(&[0o022, 0o022, 0o077, 0o002, 0]);
     let mut t = Tracker::new(&tree);
     let mut ops = vec![];
+    if r.chance(1, 3) {
+        t.cur_mut().disp[CHLD] = Disp::Catch;
+        ops.push(Op::Sigaction(CHLD, Disp::Catch));
+    }
     let mut budget = if thorough { 6 + r.below(34) } else { 4 + r.below(22) };
     while budget > 0 {
         budget -= 1;
@@ -3045,7 +3130,7 @@ impl SGen<'_> {
 
     fn stmt(&mut self) -> String {
         loop {
-            let k = self.r.below(65);
+            let k = self.r.below(68);
             let (kind, s): (&'static str, String) = match k {
                 0 => ("redir-out", format!("echo {} > {}", self.word(), self.newfile())),
                 1 => ("redir-out", format!("echo {} > {}; echo {} >> {}", self.word(), "n1", self.word(), "n1")),
@@ -3245,6 +3330,27 @@ impl SGen<'_> {
                     };
                     ("ulimit-emfile", format!("(ulimit -n {n}; {body}); echo $?"))
                 }
+                65 | 66 | 67 => {
+                    // a named FIFO held open read/write by the shell keeps a background
+                    // child blocked in `read`: signals for a live child (also one in a
+                    // process group of its own, `set -m`), the parent woken up in `wait`,
+                    // a younger child ending before an older one.  Only at the root.
+                    if !self.cwd.is_empty() {
+                        continue;
+                    }
+                    ("fifo-live-child", (*self.r.pick(&[
+                        "trap 'echo T' TERM; exec 3<>fifo; { read y <&3; echo child-got $y; } & kill -s TERM $!; wait $!; echo $?; exec 3>&-",
+                        "exec 3<>fifo; { read y <&3; echo child-got $y; exit 6; } & echo hello >&3; wait $!; echo $?; exec 3>&-",
+                        "exec 3<>fifo; { read y <&3; exit 5; } & a=$!; { exit 7; } & b=$!; wait $b; echo $?; echo go >&3; wait $a; echo $?; exec 3>&-",
+                        "exec 3<>fifo; { read y <&3; exit 5; } & { exit 7; } & echo go >&3; wait; echo $?; exec 3>&-",
+                        "trap 'echo T' HUP; exec 3<>fifo; { read y <&3; echo no; } & a=$!; (exit 3) & wait $!; echo $?; kill -s HUP $a; wait $a; echo $?; exec 3>&-",
+                        "set -m; trap 'echo T' TERM; exec 3<>fifo; { read y <&3; echo no; } & kill -s TERM $!; wait $!; echo $?; exec 3>&-; set +m",
+                        "trap '' INT; exec 3<>fifo; { trap - INT; read y <&3; echo no; } & kill -s INT $!; wait $!; echo $?; exec 3>&-",
+                        "set -m; trap 'echo H' HUP; exec 3<>fifo; { read y <&3; echo no; } & a=$!; kill -s HUP $a; wait $a; echo $?; exec 3>&-; set +m",
+                        "set -m; exec 3<>fifo; { read y <&3; exit 4; } & a=$!; { exit 9; } & wait $!; echo $?; echo go >&3; wait $a; echo $?; exec 3>&-; set +m",
+                        "set -m; trap 'echo T' TERM; exec 3<>fifo; { read y <&3; echo no; } & a=$!; (exit 2) & wait $!; echo $?; kill -s TERM $a; wait; echo $?; exec 3>&-; set +m",
+                    ])).to_string())
+                }
                 64 => {
                     // symbolic links (in the initial tree): the simulator's open() does not
                     // follow them (open finding open-symlink-not-followed); only at the root
@@ -3339,6 +3445,9 @@ fn tree_for(script: &str) -> InitTree {
     let mut t = script_tree();
     if !script.contains("big") {
         t.retain(|(p, _)| p != &vec!["big".to_string()]);
+    }
+    if script.contains("fifo") {
+        t.push((vec!["fifo".to_string()], Some(FIFO.to_vec())));
     }
     if script.contains("lnk_") {
         let link = |path: &[&str], target: &str| -> (Vec<String>, Option<Vec<u8>>) {
@@ -3534,6 +3643,11 @@ fn corpus_scripts() -> Vec<ScriptCase> {
         kinds: vec!["corpus"],
     };
     vec![
+        // a background child in a process group of its own that dies the moment it
+        // unblocks the pending SIGTERM: its parent must be told (SIGCHLD) and wake up in wait
+        mk("set -m; trap 'echo T' TERM; exec 3<>fifo; { read y <&3; echo no; } & kill -s TERM $!; wait $!; echo $?; exec 3>&-; set +m"),
+        // two children alive together, the younger one ends first
+        mk("exec 3<>fifo; { read y <&3; exit 5; } & a=$!; { exit 7; } & b=$!; wait $b; echo $?; echo go >&3; wait $a; echo $?; exec 3>&-"),
         // known deviation of the simulator (F41): open() does not follow symbolic links
         mk_tagged("open-symlink-not-followed", "cat < lnk_f; echo $?"),
         // ... nor in an intermediate component,
@@ -3800,6 +3914,32 @@ fn corpus_sys() -> Vec<SysCase> {
             Op::Getcwd,
             Op::Exit,
             Op::GetSigaction(2),
+        ]),
+        // SIGCHLD goes to the parent, also when the child is in a process group of
+        // its own and dies inside its own sigmask call (a pending fatal signal
+        // delivered at the moment it is unblocked)
+        mk(vec![
+            Op::Sigaction(CHLD, Disp::Catch),
+            Op::Sigaction(2, Disp::Catch),
+            Op::Sigmask(0, vec![2]),
+            Op::Fork,
+            Op::Kill(Target::Own, 2),
+            Op::Sigaction(2, Disp::Default),
+            Op::Setpgid0,
+            Op::Sigmask(1, vec![2]),
+            Op::Getcwd,
+            Op::Exit,
+            Op::Caught,
+            Op::Fork,
+            Op::Setpgid0,
+            Op::Exit,
+            Op::Caught,
+            Op::Sigmask(0, vec![CHLD]),
+            Op::Fork,
+            Op::Exit,
+            Op::Caught,
+            Op::Sigmask(1, vec![CHLD]),
+            Op::Caught,
         ]),
         // ---- new findings (generated once they are registered) ----
         mk_tagged(
